@@ -91,9 +91,14 @@ type Serf struct {
 	queryResponse   map[LamportTime]*QueryResponse
 	queryLock       sync.RWMutex
 
-	logger     *log.Logger
-	joinLock   sync.Mutex
-	stateLock  sync.Mutex
+	logger    *log.Logger
+	joinLock  sync.Mutex
+	stateLock sync.Mutex
+
+	// leaveLock is held while Leave is inside memberlist.Leave, and taken by
+	// Shutdown before it tears memberlist down (memberlist panics if Leave
+	// is called after Shutdown). Lock order: leaveLock, then stateLock.
+	leaveLock  sync.Mutex
 	state      SerfState
 	shutdownCh chan struct{}
 
@@ -741,11 +746,16 @@ func (s *Serf) Leave() error {
 		}
 	}
 
-	// Attempt the memberlist leave
-	err := s.memberlist.Leave(s.config.BroadcastTimeout)
-	if err != nil {
-		s.logger.Printf("[WARN] serf: timeout waiting for leave broadcast: %s", err.Error())
+	// Attempt the memberlist leave, unless a concurrent Shutdown has already
+	// torn memberlist down
+	s.leaveLock.Lock()
+	if s.State() != SerfShutdown {
+		err := s.memberlist.Leave(s.config.BroadcastTimeout)
+		if err != nil {
+			s.logger.Printf("[WARN] serf: timeout waiting for leave broadcast: %s", err.Error())
+		}
 	}
+	s.leaveLock.Unlock()
 
 	// Wait for the leave to propagate through the cluster. The broadcast
 	// timeout is how long we wait for the message to go out from our own
@@ -860,6 +870,10 @@ func (s *Serf) forceLeave(node string, prune bool) error {
 //
 // It is safe to call this method multiple times.
 func (s *Serf) Shutdown() error {
+	// Wait for a Leave that is inside memberlist.Leave
+	s.leaveLock.Lock()
+	defer s.leaveLock.Unlock()
+
 	s.stateLock.Lock()
 	defer s.stateLock.Unlock()
 
